@@ -7,6 +7,7 @@ CONSTANTS
   CompOps <- CompOpsAll
   LocoOps <- LocoOpsQ
   Targets <- One
+  Near = FALSE
   MaxOps = 2
 INVARIANT Atomic
 
